@@ -806,10 +806,15 @@ func TypeMatrixPrograms() []string {
 	pre := "n := 1\ns := \"s\"\nb := true\nan := [1 2]\nas := [\"a\"]\naa:[]any\nmn := {a:1}\nma:{}any\ny:any\nfunc p\n    print \"p\"\nend\nfunc q v:num\n    print \"q\" v\nend\n"
 	use := "print n s b an as aa mn ma y\np\nq 1\n"
 	var out []string
-	for _, l := range descs {
-		for _, r := range descs {
-			for _, op := range ops {
-				out = append(out, pre+"x := "+l+" "+op+" "+r+"\nprint x (typeof x)\n"+use)
+	// expressions of an untyped empty array or map type that are not literals (slices, operators, elements of
+	// literals): in every value position, not in the operator matrix
+	extra := []string{"[][:]", "[][:0]", "[][0:]", "[]+[]", "[]*2", "[[]][0]", "[[]][0][:]", "[[]]+[[]]", "{a:[]}.a", "{a:{}}.a", "[{}][0]", "an[:0]", "[1][1:]", "[[]][:1]"}
+	for li, l := range append(append([]string{}, descs...), extra...) {
+		if li < len(descs) {
+			for _, r := range descs {
+				for _, op := range ops {
+					out = append(out, pre+"x := "+l+" "+op+" "+r+"\nprint x (typeof x)\n"+use)
+				}
 			}
 		}
 		out = append(out, pre+"x := -"+l+"\nprint x\n"+use, pre+"x := !"+l+"\nprint x\n"+use,
@@ -829,6 +834,8 @@ func TypeMatrixPrograms() []string {
 			pre+"aa = ["+l+"]\n"+use, pre+"ma = {k:"+l+"}\n"+use,
 			pre+"func g:any\n    return "+l+"\nend\nprint (g)\n"+use, pre+"func g:[]any\n    return ["+l+"]\nend\nprint (g)\n"+use,
 			pre+"x := ("+l+")\nprint x\n"+use, pre+"x := [("+l+")]\nprint x\n"+use,
+			pre+"print ("+l+") (("+l+")) [("+l+")] {k:("+l+")}\n"+use, pre+"y = ("+l+")\nprint y (typeof y)\n"+use, pre+"aa = [("+l+")]\nma.k = ("+l+")\nprint aa ma\n"+use,
+			pre+"print (typeof ("+l+")) (typeof "+l+")\n"+use,
 			pre+"func h a:any...\n    print a\nend\nh "+l+" ["+l+"]\n"+use,
 			pre+"while "+l+"\n    break\nend\n"+use, pre+"for i := range "+l+" 3\n    print i\nend\n"+use)
 		// storing into an element / a field of an any container; a container stored into ITSELF is a cyclic
